@@ -45,8 +45,15 @@ impl Check for C04 {
         }
     }
     fn generate(&self, rng: &mut Prng, tier: Tier, idx: u64) -> Value {
-        let n = NATIVE_OPS.len() + NG_OPS.len() + 1;
+        let vec_ops = crate::ops_vec::VEC_OPS;
+        let n = NATIVE_OPS.len() + NG_OPS.len() + 1 + vec_ops.len();
         let i = (idx as usize) % n;
+        if i > NATIVE_OPS.len() + NG_OPS.len() {
+            // the vector gadget: honest executions, then Byzantine edits of the unused cells only
+            // (a vector's cells cannot be published, so an edited payload is another input)
+            let case = crate::ops_vec::gen_case(rng, vec_ops[i - NATIVE_OPS.len() - NG_OPS.len() - 1]);
+            return opcheck::to_json(&Scn { case, fault_seed: rng.u64(), n_plans: opcheck::plans_for(tier, idx), only: Some(vec![]), only_late: Some(vec![]) });
+        }
         let case = if i < NATIVE_OPS.len() {
             gen_native_case(rng, NATIVE_OPS[i])
         } else if i < NATIVE_OPS.len() + NG_OPS.len() {
